@@ -323,4 +323,11 @@ static std::string step(const std::vector<std::string>& t)
   }
 }
 
-int main() { return vh::runLines(step); }
+int main()
+{
+  // line-buffered: when a sanitizer aborts the process, every answer up to the fatal op has reached the pipe,
+  // so the crash is attributed to the op that caused it
+  static char obuf[1 << 16];
+  std::setvbuf(stdout, obuf, _IOLBF, sizeof obuf);
+  return vh::runLines(step);
+}
